@@ -18,7 +18,7 @@ RULE = (
     "'raise' mode ending in a field error, read in 'continue' mode, validate with limit 0 / 1 / none, write rows "
     "without close, write and close, write a duplicate, abandon a read and keep it open, leave a reader unclosed and "
     "keep it, read / write while those kept runs are closed in the middle - over data sets that share key values and distinct-count "
-    "values. Every sequence of up to 4 operations is executed exhaustively (quick and thorough); Hypothesis adds "
+    "values. Every sequence of up to 4 (thorough: 5) operations is executed exhaustively; Hypothesis adds "
     "sequences of up to 30 operations with generated data (thorough: more). Oracle (differential): the outcome of "
     "each operation on the shared CID (items, rejections as type/text/row/column/see-also row, final exception) "
     "must equal the outcome of the same operation on a CID freshly loaded from the same rows. Non-trivial: a "
@@ -31,7 +31,7 @@ ASSUMPTIONS = [
     "the outcome of an operation on a fresh CID is deterministic (checked: computed twice)",
 ]
 EXHAUSTIVE = True
-EXHAUSTIVE_SCOPE = "all sequences of 1-4 operations over the 19-operation alphabet"
+EXHAUSTIVE_SCOPE = "all sequences of 1-4 (thorough: 1-5) operations over the 19-operation alphabet"
 
 CID_ROWS = [
     ["D", "Format", "Delimited"],
@@ -218,13 +218,13 @@ def _first_difference(fresh, actual):
 def _shard(args):
     from vlib.runner import Sub
 
-    index, count = args
+    index, count, max_length = args
     sub = Sub("sequences")
     fresh = _fresh_outcomes()
     number = 0
     before = 0
     nontrivial = 0
-    for length in (1, 2, 3, 4):
+    for length in range(1, max_length + 1):
         for names in itertools.product(OP_NAMES, repeat=length):
             number += 1
             if number % count != index:
@@ -262,7 +262,7 @@ def check_long(sub, case):
 
 def run(ctx):
     shards = ctx.workers * 2
-    ctx.par(_shard, [(i, shards) for i in range(shards)])
+    ctx.par(_shard, [(i, shards, ctx.n(4, 5)) for i in range(shards)])
     ctx.hyp("long", long_cases, check_long, ctx.n(1500, 20000))
 
 
